@@ -110,6 +110,12 @@ def run_case(case, ctx):
             A = np.rint(A * 2).astype(int)
             A[A == 0] = 1
             b = np.rint(b * 3).astype(int)
+    if case['seed'] % 8 == 2 and n >= 2:
+        # coordinates of nearly (not exactly) the same size: their default steps differ in the last digits only
+        ctx.count('nearly_equal_coordinates_cases')
+        base = float(rng.choice([-1, 1]) * 10.0 ** rng.uniform(0.05, 0.7))
+        x = np.array([base * (1.0 + (0.0 if j == 0 else float(rng.choice([-1, 1]) * 10.0 ** rng.uniform(-9, -5.3)))) *
+                      (1.0 if rng.random() < 0.7 else -1.0) for j in range(n)])
     f32_x = kind in ('affine', 'smooth') and case['seed'] % 8 == 1
     if f32_x:
         # the point handed over as a float32 array (the maps themselves compute in float64)
